@@ -93,6 +93,10 @@ CLAIMED = {
             'bounded-exhaustive scope exploration (all ordered matrix pairs, all argument subsets) + installation-history enumeration in isolated processes', 'DESIGN.md 4/C20'),
 }
 
+SUFFIX = (' Every implementation call additionally passes the call-hygiene rules of DESIGN.md 3.7 (arguments not modified, results not aliased to internal state, '
+          'repeatable, independent of memory layout and of reused buffers), and the unit list in the evidence file names the threshold-size, value, dtype and '
+          'call-history alphabets that were added after independently seeded changes showed what small-scope enumeration alone misses.')
+
 PENDING_REASON = 'check not built yet in this revision (planned: DESIGN.md section 4); not claimed until its explorer exists and is silent on the fixed tree'
 
 
@@ -116,7 +120,7 @@ def main():
                 'evidence_file': f'/verif/evidence/{pid}.json',
                 'replay_cmd_template': f'./check {pid} --replay {{path}}',
                 'engine': 'mc',
-                'level_claimed': {'category': 'model_checking', 'text': text, 'design_ref': ref},
+                'level_claimed': {'category': 'model_checking', 'text': text + SUFFIX, 'design_ref': ref},
                 'level_note': note,
                 'technique': tech,
             })
@@ -137,7 +141,7 @@ def main():
                      'kind_free_text': 'hand-written explicit-state explorer for Python: exhaustive scope enumeration (with basis closure for linear maps), '
                                        'level-synchronous BFS over operation histories on real objects with canonical-state deduplication, and fault (truncation) enumeration; 16 worker processes'}],
         'checks': checks,
-        'notes': 'All checks import prysm from /repo\'s working tree in a fresh process (pure Python: nothing to build). known_findings.json lists recorded/fixed defects; replays/ is written at run time.',
+        'notes': 'All checks import prysm from /repo\'s working tree in a fresh process (pure Python: nothing to build). known_findings.json lists recorded/fixed defects (about 90 fix: commits in /repo, 1 known finding); replays/ is written at run time; seeded/ holds the independently seeded changes used to validate detection (DESIGN.md 7). Quick tier: <= 40 s per check on 16 idle cores; thorough: <= 9 min (C01, C17, C08 are the long ones).',
         'not_applicable': na,
     }
     with open(os.path.join(ROOT, 'MANIFEST.json'), 'w') as f:
